@@ -505,7 +505,9 @@ func (x *Exec) step(st *State) []*State {
 		}
 		id := x.fresh(st, "clo", SInt)
 		st.assume(Gt(id, IntT(0)))
-		x.setVal(fr, v, Val{K: VFunc, Fn: fn, Bind: bind, T: id, GoT: v.Type()})
+		cv := Val{K: VFunc, Fn: fn, Bind: bind, T: id, GoT: v.Type()}
+		closureReg[id.S] = cv // a closure value read back from a heap field is recognised by its identity term
+		x.setVal(fr, v, cv)
 	case *ssa.MakeSlice:
 		x.setVal(fr, v, x.makeSlice(st, fr, v))
 	case *ssa.Slice:
@@ -1571,6 +1573,9 @@ func (x *Exec) makeInterface(st *State, v Val, from, to types.Type) Val {
 	pv := v
 	return Val{K: VIface, T: id, GoT: to, Dyn: from, Payload: &pv}
 }
+
+// closureReg: closure identity term -> function and bindings (static information of the run)
+var closureReg = map[string]Val{}
 
 var tagOrder []string
 
